@@ -1370,6 +1370,10 @@ def make_builtins(I):
     def b_sorted(x, key=None, reverse=False):
         if isinstance(x, IterVal):
             x = x.drain()
+        def _conc(v):
+            return isinstance(v, (int, str, float)) and not isinstance(v, bool) or (isinstance(v, tuple) and all(_conc(e) for e in v))
+        if key is None and isinstance(x, (list, tuple)) and all(_conc(v) for v in x):
+            return sorted(x, reverse=bool(reverse))              # concrete numbers / strings / tuples of them
         if key is not None or reverse:
             # stable sort by key over a sequence of concrete length: insertion sort branching on the key comparisons
             items = iterate(I, x)
